@@ -55,7 +55,13 @@ def runs(tier, seed):
     r += [("ctrl4-%d" % i, ["net", "-level", "ctrl", "-seed", str(seed * 100 + 20 + i), "-n", str(10 * k), "-size", "4"]) for i in range(3)]
     r += [("ctrl7-%d" % i, ["net", "-level", "ctrl", "-byz", "2", "-seed", str(seed * 100 + 40 + i), "-n", str(3 * k), "-size", "7"]) for i in range(4)]
     r += [("attack-%d" % i, ["attack", "-seed", str(seed * 100 + 60 + i), "-n", str(16 * k)]) for i in range(3)]
+    # partial publish failures (the commit goes out, the call reports an error): the model has no failing publish,
+    # these runs are checked by the agreement monitor only
+    r += [("puberr-0", ["attack", "-only", "publish-error", "-seed", str(seed * 100 + 80), "-n", str(30 * k)])]
     return r
+
+
+NO_MODEL_RUNS = ("puberr",)
 
 
 def search_runs(tier, seed):
